@@ -101,6 +101,17 @@ func run(e *hx.Env) *hx.Report {
 			}
 		}
 	}
+	// ---- systematic: one failing `ipset create`, each set position, from empty and with existing policy chains
+	fh := policy.FaultHistories()
+	for _, name := range hx.SortedKeys(fh) {
+		r, err := runOps(e, rep, name, fh[name])
+		if err != nil {
+			rep.Disagree = append(rep.Disagree, hx.Disagreement{Where: "fault-history", Model: err.Error()})
+			continue
+		}
+		rep.Case(strings.Join(fh[name], "\n"), r.Nontriv)
+		rep.Hit("history:fault-systematic")
+	}
 	n := e.N(120, 4000)
 	for i := 0; i < n; i++ {
 		ops := policy.GenHistory(e.Rng)
